@@ -107,6 +107,8 @@ f('C10', 'constructor-accepts-non-periodic-knot-vector', 'the constructor checks
 
 f('C07', 'split-periodic-point-at-end', 'split in a periodic direction with a later split point equal to end(): the insertion loop calls periodic insert_knot(end), IndexError when the seam multiplicity p-1-k is >= 2 (see C04 periodic-insert-end-indexerror)', False, {'call': 'Curve(BSplineBasis(3,[-1,0,0,1,2,3,3,4],0),[[0,0],[1,0],[1,1],[0,1]],raw=True).split([1.0,3.0])'})
 
+f('C10', 'periodic-small-basis-structure', 'periodic insert_knot on the very smallest bases (n = 1, or n = 2 for p=5,k=2) yields a structurally invalid object: a zero weight / lost knot with ghost knots not repeating the interior spacing', False, {'call': 'Curve(BSplineBasis(2,[-1,0,1,2],0),[[1,2,1.5]],rational=True,raw=True).insert_knot(0.0)'})
+
 FIXED_COMMITS = {('C02', 'curve-evaluate-rejects-tensor-keyword'): '3ae9973', ('C03', 'rational-surface-d-not-tuple-returns-zeros'): 'cd5762c', ('C03', 'rational-derivative-order-zero-returns-zero'): '9f6e350', ('C03', 'rational-closed-form-ignores-above-list'): 'ea90458+cd5762c', ('C03', 'rational-left-limit-at-discontinuity'): '9f6e350+ea90458', ('C05', 'curve-raise-order-zero-returns-none'): '6ca09d8', ('C05', 'curve-dimension1-controlpoints-flattened'): '2d51429', ('C06', 'reverse-periodic-flip-only'): '4fe14f6', ('C06', 'swap-curve-returns-none'): '4f754a8', ('C09', 'infix-truediv-undefined'): '6773409', ('C11', 'extrude-mutates-operand'): 'c412e04', ('C11', 'section-point-view'): 'bb6c762', ('C11', 'swap-curve-returns-none'): '4f754a8', ('C11', 'curve-raise-order-0-returns-none'): '6ca09d8', ('C11', 'coons-patch-reverses-operands'): '9b346de', ('C13', 'three-point-arc-wrong-end'): 'b23deeb', ('C13', 'three-point-arc-nan-half-turn'): 'b0aae77', ('C13', 'arc-2pi-ignores-xaxis'): 'cf8223f', ('C13', 'cylinder-height-scaled-by-axis-norm'): '1445103', ('C14', 'manipulate-getargspec'): 'e2f7e0b', ('C14', 'lsq-flat-layout-reshape'): '3534aae', ('C14', 'volume-loft-two-sections'): 'f8de1df', ('C16', 'torsion-scalar-branch-uses-acceleration'): '274e74a', ('C16', 'rational-curve-one-element-list-derivative-squeezed'): 'ea90458', ('C16', 'integrate-periodic-collapse-single-fold'): 'fc5b45b', ('C17', 'nodeview-section-wrong-frame'): '8e83d07', ('C19', 'stl-2d-surface-resize'): '932700c', ('C19', 'g2-reversed-periodic-primitive'): '4fe14f6', ('C20', 'state-not-restored-on-exception'): 'cc29465', ('C20', 'g2-bounded-surface-writes-state'): '18d24da', ('C20', 'splinemodel-vertex-tolerance-not-from-state'): '580c3fa', ('C11', 'nutils-patch-mutates-operands'): 'a44d46f', ('C13', 'three-point-arc-half-turn-accuracy'): '3370f0f', ('C18', 'openfoam-boundary-count-without-internal-faces'): '7181bd9'}
 FIXED = []
 if __name__ == '__main__':
